@@ -54,8 +54,9 @@ class Session:
     """One world with the client waiting in the Noise hello state and the full honest server stream prepared."""
 
     def __init__(self, name_variant: str = "equal", expected: str | None = None, app: tuple[str, ...] = ("ST", "PR"),
-                 device_psk: bytes | None = None, login: bool = True, early: tuple[str, ...] = ()) -> None:
+                 device_psk: bytes | None = None, login: bool = True, early: tuple[str, ...] = (), listener: str = "") -> None:
         from aioesphomeapi.core import MESSAGE_TYPE_TO_PROTO
+        from aioesphomeapi.api_pb2 import SensorStateResponse
 
         name, mac = NAME_VARIANTS[name_variant]
         self.w = ConnWorld(noise=True, expected_name=expected, device_name=name, device_psk=device_psk, login=login)
@@ -63,7 +64,24 @@ class Session:
         assert w.ndev is not None
         w.ndev.mac = mac
         self.probe = Probe(w)
-        w.conn.add_message_callback(self.probe, tuple(MESSAGE_TYPE_TO_PROTO.values()))
+        self.listener = listener
+        self.oneshot_calls: list[bytes] = []
+        if listener == "lone":
+            # the probe leaves sensor states to a lone one-shot listener, which unsubscribes itself from inside its first call:
+            # later sensor states have no subscriber
+            w.conn.add_message_callback(self.probe, tuple(t for t in MESSAGE_TYPE_TO_PROTO.values() if t is not SensorStateResponse))
+        else:
+            w.conn.add_message_callback(self.probe, tuple(MESSAGE_TYPE_TO_PROTO.values()))
+        if listener:
+            unsub: list[Any] = []
+
+            def oneshot(msg: Any) -> None:
+                self.oneshot_calls.append(msg.SerializeToString())
+                if listener == "lone":
+                    self.probe(msg)
+                unsub.pop()()
+
+            unsub.append(w.conn.add_message_callback(oneshot, (SensorStateResponse,)))
         w.do_start()
         w.do_tcp_ok()
         w.do_finish_call()
@@ -82,8 +100,14 @@ class Session:
         self.plain: list[tuple[str, bytes]] = []
         if nd.r.tx is None:  # the responder could not authenticate the client (different key): no session follows
             self.msgs = []
+        n_states = 0
         for m in self.msgs:
             self.frames.append(nd.data_frame(msg_id(type(m).__name__), m.SerializeToString()))
+            if type(m).__name__ == "SensorStateResponse":
+                n_states += 1
+                if listener == "lone" and n_states > 1:
+                    self.plain.append(("-", b""))  # nobody is subscribed any more: no delivery for this frame
+                    continue
             self.plain.append((type(m).__name__, m.SerializeToString()))
         self.rx_key = nd.r.tx.k if nd.r.tx is not None else None  # what the client must use to decrypt
         self.barrier = sum(len(f) for f in self.frames[: 2 + len(self.early)])
